@@ -10,9 +10,12 @@ from oracles import cover_brute as brute
 ID = 'C10'
 LEVEL = 'proof'
 THEORIES = ['theories/L5Cover/BoxesProofs.vo',
-            'theories/L5Cover/MinCoverProofs.vo']
+            'theories/L5Cover/MinCoverProofs.vo',
+            'theories/L5Cover/CoverEnumProofs.vo',
+            'theories/L5Cover/CoverEnumBounded4.vo']
 
-HEADER = cq.HEADER
+HEADER = cq.HEADER + ('From Omega Require Import L5Cover.MinCover '
+                      'L5Cover.CoverEnum.\n')
 F2_KEY = 'enumerate_mincovers_below_assert'
 CORES3 = [126, 189, 219, 231]
 
@@ -21,12 +24,13 @@ def prove(ctx):
     with ctx.coq_lock():
         ctx.prove('Properties/C10.v', timeout=900)
     ctx.trusted.append(
-        'tie H: omega/symbolic/cover_enum.py is NOT modelled; on every run '
+        'tie H: omega/symbolic/cover_enum.py is modelled by hand in '
+        'L5Cover/CoverEnum.v (as repaired by fixes/F2.patch); on every run '
         'the set of covers returned by the real cover_enum.minimize is '
         'compared, inside Coq, with the verified reference '
         'all_min_covers_ref by the verified checker is_all_min_covers_b '
-        '(theorem C10_checker_correct), and the cover of cover.minimize is '
-        'checked to be a member')
+        '(theorem C10_checker_correct) and with the result of the model, and '
+        'the cover of cover.minimize is checked to be a member')
 
 
 def is_f2(err):
@@ -121,6 +125,9 @@ def coq_group(i, inst, res):
     if 'cover' in res:
         terms.append(f'anyb (same_setb {cq.boxes(proj(res["cover"]))}) {p}R')
         keys.append('member')
+    terms.append(f'match enum_minimize {p}rs pick_first {p}f {p}care with '
+                 f'inl M => same_familyb M {p}R | inr _ => false end')
+    keys.append('model')
     return (defs, terms), keys
 
 
@@ -173,6 +180,10 @@ def correspond(ctx):
                 'minimum covers by maximal boxes (verified checker '
                 'is_all_min_covers_b)', inst, impl=res['covers'],
                 property_fails=True))
+        elif k == 'model':
+            mism.append(Mismatch(
+                'the returned set of covers differs from the result of the '
+                'model enum_minimize', inst, impl=res['covers']))
         else:
             mism.append(Mismatch(
                 'the cover of cover.minimize is not among the enumerated '
@@ -261,12 +272,20 @@ def failing_of(inst):
 
 
 def search(ctx, broken, mismatches):
-    for m in mismatches:
+    f2 = None
+    for m in mismatches[:40]:
         if m.case is None:
+            continue
+        if m.key == F2_KEY and f2 is not None:
             continue
         f = failing_of(m.case)
         if f and f.key is None:
             return [f]
+        if f and f2 is None:
+            f2 = f
+    if f2 is not None:
+        # only the F2 class (dropped by run_check when it is a listed finding)
+        return [f2]
     budget = 1500 if ctx.thorough else 300
     jobs = []
     for i in range(budget):
